@@ -201,7 +201,7 @@ func sentinelForms(v *Val, inst int) [][]byte {
 		}
 	}
 	switch v.K {
-	case KString, KBytes, KNamedStr, KErr, KStringer, KPStringer, KGoStringer, KFormatter, KErrFormatter, KErrStringer, KPanicStringer, KPanicError:
+	case KString, KBytes, KNamedStr, KErr, KStringer, KPStringer, KGoStringer, KFormatter, KFormatterWS, KErrFormatter, KErrStringer, KPanicStringer, KPanicError:
 		s := unsafeStr(v.ID, inst)
 		// only the first fragment carries the per-leaf id stamp (later fragments repeat across leaves)
 		parts := strings.FieldsFunc(s, func(c rune) bool { return c == '\n' || c == ' ' || c == '‹' || c == '›' })
@@ -410,7 +410,7 @@ func streamEnvelopes(rep *Report, tier string, seed uint64) {
 					// Go-syntax rendering puts the type name (safe text by design) around the address
 					valid = false
 				}
-				if v.hasKind(KPtrStruct, KStrSlice, KIntArr, KMapKeyed, KRegStruct, KByteArr, KBytes, KComplex, KNilStringer, KGoStringer) && !declaredSafe {
+				if v.hasKind(KMapIfaceKey, KMapStructKey, KPtrStruct, KStrSlice, KIntArr, KMapKeyed, KRegStruct, KByteArr, KBytes, KComplex, KNilStringer, KGoStringer) && !declaredSafe {
 					// composite renderings: structural punctuation is written as safe text by design
 					valid = false
 				}
@@ -435,7 +435,103 @@ func streamEnvelopes(rep *Report, tier string, seed uint64) {
 				}
 				emit(Case{Real: fmt.Sprintf("cfg=%d Sprintf(%q, %s) => %s", cfg, f, vv, out), Oracle: orc, Nontriv: hasMarker(out), Kind: fmt.Sprintf("safe=%v", declaredSafe)})
 			}
+			resetRegistry()
+			for i := 0; i < n; i++ {
+				envelopeTreeCase(r, emit)
+			}
 		})
+}
+
+// safeSentinels / unsafeSentinels: the id-stamped content of leaves, by classification
+// (registry empty; leaves under Safe() count as safe, under Unsafe() as unsafe).
+func collectSentinels(v *Val, ctx int, unexp bool, safe, unsafe *[][]byte) {
+	switch v.K {
+	case KSafe:
+		if ctx == 0 {
+			ctx = 1
+		}
+	case KUnsafe:
+		if ctx == 0 {
+			ctx = 2
+		}
+	}
+	add := func(dst *[][]byte, s string) {
+		parts := strings.FieldsFunc(s, func(c rune) bool { return c == '\n' || c == ' ' || c == '‹' || c == '›' })
+		if len(parts) > 0 && len(parts[0]) >= 5 {
+			*dst = append(*dst, []byte(parts[0]))
+		}
+	}
+	switch v.K {
+	case KString, KNamedStr, KErr, KStringer, KPStringer, KErrStringer, KFormatter, KFormatterWS:
+		if ctx == 1 {
+			add(safe, unsafeStr(v.ID, 0))
+		} else {
+			add(unsafe, unsafeStr(v.ID, 0))
+		}
+	case KSafeStr, KSafeStringer:
+		if unexp && ctx == 0 {
+			// a SafeValue reached through an unexported field cannot be interfaced: it is
+			// (conservatively) treated as unsafe by the library; no expectation either way
+		} else if ctx == 2 {
+			add(unsafe, safeStr(v.ID))
+		} else {
+			add(safe, safeStr(v.ID))
+		}
+	}
+	for i, k := range v.Kids {
+		collectSentinels(k, ctx, unexp || (v.K == KStruct && i == 1) || v.K == KReflectValue, safe, unsafe)
+	}
+}
+
+func envelopeTreeCase(r *Rng, emit func(Case)) {
+	id := 0
+	n := 1 + r.Intn(3)
+	var vs []*Val
+	for i := 0; i < n; i++ {
+		vs = append(vs, genVal(r, 0, GenOpts{MaxDepth: 3, NoPanics: true}, &id))
+	}
+	c := pcase{"", vs}
+	if r.Bool() {
+		f := ""
+		for i := 0; i < n; i++ {
+			f += []string{"%v ", "%+v|", "%s,", "%8v;", "%-9v."}[r.Intn(5)]
+		}
+		c.f = f
+	}
+	out, pm, _ := c.run(0)
+	var orc []string
+	if pm != "" {
+		orc = append(orc, "C11:print call panicked: "+pm)
+	} else if e := wflErr(out); e != "" {
+		orc = append(orc, "C01:"+e)
+	} else {
+		var safe, unsafe [][]byte
+		for _, v := range vs {
+			collectSentinels(v, 0, false, &safe, &unsafe)
+		}
+		outside := dropEnvs(out)
+		all := stripOnce(out)
+		for _, s := range unsafe {
+			if bytes.Contains(outside, s) && !bytesIn(safe, s) {
+				orc = append(orc, fmt.Sprintf("C05:content %q of a value not declared safe is outside envelopes: %q", s, out))
+			}
+		}
+		for _, s := range safe {
+			if bytes.Count(outside, s) != bytes.Count(all, s) && !bytesIn(unsafe, s) {
+				orc = append(orc, fmt.Sprintf("C05:content %q of a declared-safe value is inside an envelope: %q", s, out))
+			}
+		}
+	}
+	emit(Case{Real: c.desc() + " => " + string(out), Oracle: orc, Nontriv: hasMarker(out), Kind: "tree"})
+}
+
+func bytesIn(l [][]byte, s []byte) bool {
+	for _, x := range l {
+		if bytes.Equal(x, s) {
+			return true
+		}
+	}
+	return false
 }
 
 func isRegistered(cfg regCfg, v interface{}) bool {
@@ -589,6 +685,11 @@ type callbackSF struct{ c callbackFmtr }
 
 func (c callbackSF) SafeFormat(sp redact.SafePrinter, _ rune) { c.c.run(sp) }
 
+// safeHolder is a SafeValue-marked container.
+type safeHolder struct{ A interface{} }
+
+func (safeHolder) SafeValue() {}
+
 func testHook(err error, p redact.SafePrinter, verb rune) {
 	p.SafeString("HOOK[")
 	p.UnsafeString(err.Error())
@@ -636,6 +737,15 @@ func streamCompose(rep *Report, tier string, seed uint64) {
 					orc = append(orc, "C11:panic: "+pm)
 				} else if string(out) != string(rs) {
 					orc = append(orc, fmt.Sprintf("C08:re-printing %q with %q gives %q", rs, d, out))
+				}
+				// under Safe(): a redactable keeps its own classification and is still reproduced unchanged
+				if o3, pm3 := rSprintf(d, []interface{}{redact.Safe(arg)}); pm3 != "" {
+					orc = append(orc, "C11:panic: "+pm3)
+				} else if string(o3) != string(rs) {
+					orc = append(orc, fmt.Sprintf("C08:re-printing Safe(%q) with %q gives %q", rs, d, o3))
+				}
+				if o4, _ := rSprint([]interface{}{redact.Safe([]interface{}{arg, 1}), safeHolder{A: arg}}); string(o4) != "["+string(rs)+" 1] {"+string(rs)+"}" {
+					orc = append(orc, fmt.Sprintf("C08:redactable inside a Safe()/SafeValue container: got %q", o4))
 				}
 				// containers
 				shape := r.Intn(5)
